@@ -202,8 +202,8 @@ func (g *G) lookAlike(u urlParts) string {
 			}
 			i := g.r.Intn(len(u.segs))
 			v.segs[i] = strings.NewReplacer("%2F", "/", "%2f", "/", "%3F", "%3f%3F", ";", "%3B", ":", "%3A", "@", "%40", "=", "%3D", "%20", "+").Replace(u.segs[i])
-		case 7: // raw vs escaped non-ASCII, Latin-1 vs UTF-8
-			v.query = strings.NewReplacer("%E9", "%C3%A9", "%C3%A9", "%E9").Replace(u.query)
+		case 7: // raw vs escaped non-ASCII, Latin-1 vs UTF-8; a raw byte that is not valid UTF-8 vs U+FFFD in its place
+			v.query = strings.NewReplacer("%E9", "%C3%A9", "%C3%A9", "%E9", "\xe9", "\xef\xbf\xbd", "\xff", "\xef\xbf\xbd").Replace(u.query)
 			for i := range v.segs {
 				v.segs[i] = strings.NewReplacer("%E9", "%C3%A9", "%C3%A9", "%E9").Replace(u.segs[i])
 			}
